@@ -18,6 +18,10 @@ fn main() {
         std::fs::write(out.join(dir).join("introspect_corpus.rs"), code).unwrap();
         // the code generator under test is the one in /repo
         let run_codegen = |idl: &str| -> Result<String, String> {
+            if idl == "\u{0}multi" {
+                let ifaces: Vec<zlink::idl::Interface<'_>> = codegen::MULTI_IDLS.iter().map(|t| (*t).try_into().map_err(|e| format!("the IDL does not parse: {e}"))).collect::<Result<_, String>>()?;
+                return std::panic::catch_unwind(|| zlink_codegen::generate_interfaces(&ifaces).map_err(|e| format!("{e:#}"))).unwrap_or_else(|_| Err("the code generator panicked".into()));
+            }
             let iface: zlink::idl::Interface<'_> = idl.try_into().map_err(|e| format!("the IDL does not parse: {e}"))?;
             std::panic::catch_unwind(|| zlink_codegen::generate_interface(&iface).map_err(|e| format!("{e:#}"))).unwrap_or_else(|_| Err("the code generator panicked".into()))
         };
